@@ -1641,3 +1641,8 @@ impl Scenario for C16 {
         })
     }
 }
+
+/// Apply a life operation to a single object (used by the C20 document generator).
+pub fn apply_op_pub(o: &mut Obj, op: &Op, results: &mut Vec<(String, u64)>) {
+    let _ = apply_op(o, op, results);
+}
